@@ -33,6 +33,11 @@ class ItemBoom(Exception):
     pass
 
 
+class ItemBoomFalsy(Exception):
+    def __len__(self):
+        return 0
+
+
 class FailOn:
     """rt.FAIL_IF entry: fail when the mapped parameter has one of the bad values."""
 
@@ -318,7 +323,8 @@ def check_raise_order(ctx, i):
     n = rng.randint(2, 5)
     items = [f"it{j}" for j in range(n)]
     bad = sorted(rng.sample(range(n), rng.randint(2, n)))
-    excs = {items[j]: ItemBoom(f"item {j} failed") for j in bad}
+    falsy = i % 2 == 0  # exception objects whose truth value is False (an aggregate error with no recorded reasons)
+    excs = {items[j]: (ItemBoomFalsy if falsy else ItemBoom)(f"item {j} failed") for j in bad}
     inner = {"name": "ro", "nodes": [{"k": "fn", "name": "work", "fid": "ro/work", "params": [{"n": "x"}], "outs": ["y"], "async": True}], "bind": {}}
     if rng.random() < 0.5:
         inner["nodes"].append({"k": "fn", "name": "post", "fid": "ro/post", "params": [{"n": "y"}], "outs": ["z"], "async": rng.random() < 0.5})
@@ -345,6 +351,28 @@ def check_raise_order(ctx, i):
         want = excs[items[bad[0]]]
         if o.exc is not want:
             ctx.violation("C10:raise-not-first-failing-item", f"async/k={mc}/{pol}{' (mapping node)' if via_node else ''}: items {bad} fail; raise mode surfaced {o.exc!r}, the first failing item in input order raised {want!r}", {**case, "max_concurrency": mc, "policy": pol})
+    # the synchronous runner has one order only: the first failing item in input order stops the map with ITS error
+    sync_inner = {"name": "ro", "nodes": [dict(ns, **{"async": False}) for ns in inner["nodes"]], "bind": {}}
+    rt.reset_program()
+    if via_node:
+        built = build_program({"name": "outer", "nodes": [{"k": "sub", "name": "ro", "prog": sync_inner, "map": {"over": ["x"], "mode": "zip", "err": "raise"}}], "bind": {}})
+        kw = {}
+    else:
+        built = build_program(sync_inner)
+        kw = {"map_over": "x"}
+    rt.FAIL_IF.clear()
+    rt.FAIL_IF["ro/work"] = FailOn("x", excs)
+    o = core.execute(built, {"x": list(items)}, "sync", warm=False, **kw)
+    rt.FAIL_IF.clear()
+    ctx.obs["map_calls"] += 1
+    ctx.obs["raise_order_calls"] += 1
+    want = excs[items[bad[0]]]
+    if o.exc is not want:
+        ctx.violation("C10:raise-not-first-failing-item", f"sync{' (mapping node)' if via_node else ''}: items {bad} fail{' with falsy exception objects' if falsy else ''}; raise mode gave {o.status} {o.exc!r}, the first failing item in input order raised {want!r}", {**case, "runner": "sync", "falsy_exceptions": falsy})
+    else:
+        later = [e for e in o.rec.ev if e[0] == "enter" and e[1] == "ro/work" and any(str(v) in items[bad[0] + 1:] for v in e[2].values())]
+        if later:
+            ctx.violation("C10:raise-not-first-failing-item", f"sync: items after the first failing one ({items[bad[0]]}) were still executed in raise mode: {len(later)} calls", {**case, "runner": "sync", "falsy_exceptions": falsy})
     ctx.case({"form": "raise-order", "n": n, "bad": bad, "node": via_node}, True)
 
 
@@ -426,10 +454,29 @@ def check_mapped_inner_default(ctx, i):
         return sorted(acc.items(), key=repr)
 
     f = rng.choice([rec, rec_d])
-    g = Graph([FunctionNode(f, name="rec", output_name="seen")], name="inner")
+    # a clone setting on the mapping node concerns BROADCAST values; the inner default stays the nested run's business
+    # (a fresh default per item, and per inner consumer) whatever is cloned
+    clone = [False, True, ["other"]][ctx.obs["mapped_inner_default_cases"] % 3]
+    ctx.obs["mapped_inner_default_cases"] += 1
+
+    def rec_o(x, other, acc=[]):  # noqa: B006
+        acc.append(x)
+        return list(acc)
+
+    def second(x, other, acc=[]):  # noqa: B006 - a second inner consumer of the same default
+        acc.append(("second", x))
+        return list(acc)
+
+    if clone is not False:
+        g = Graph([FunctionNode(rec_o, name="rec", output_name="seen"), FunctionNode(second, name="second", output_name="seen2")], name="inner")
+        f = rec_o
+    else:
+        g = Graph([FunctionNode(f, name="rec", output_name="seen")], name="inner")
     items = [f"it{j}" for j in range(rng.randint(2, 4))]
-    single = [SyncRunner().run(g, {"x": it})["seen"] for it in items]
-    node = g.as_node().map_over("x")
+    extra = {"other": ["shared"]} if clone is not False else {}
+    single = [SyncRunner().run(g, {"x": it, **extra})["seen"] for it in items]
+    node = g.as_node().map_over("x", clone=clone) if clone is not False else g.as_node().map_over("x")
+    ctx.obs["mapped_inner_default_clone:" + repr(clone)] += 1
     if rng.random() < 0.5:
         node = node.with_inputs(x="xs")
     key = "xs" if "xs" in node.inputs else "x"
@@ -437,10 +484,10 @@ def check_mapped_inner_default(ctx, i):
     for runner in ("sync", "async"):
         for form in ("node", "runner.map"):
             if form == "node":
-                r = SyncRunner().run(outer, {key: list(items)}) if runner == "sync" else asyncio.run(AsyncRunner().run(outer, {key: list(items)}))
+                r = SyncRunner().run(outer, {key: list(items), **extra}) if runner == "sync" else asyncio.run(AsyncRunner().run(outer, {key: list(items), **extra}))
                 got = r.values.get("seen")
             else:
-                rs = SyncRunner().map(g, {"x": list(items)}, map_over="x") if runner == "sync" else asyncio.run(AsyncRunner().map(g, {"x": list(items)}, map_over="x"))
+                rs = SyncRunner().map(g, {"x": list(items), **extra}, map_over="x") if runner == "sync" else asyncio.run(AsyncRunner().map(g, {"x": list(items), **extra}, map_over="x"))
                 got = [x.values.get("seen") for x in rs]
             ctx.obs["map_calls"] += 1
             ctx.obs["items_compared"] += len(items)
